@@ -39,6 +39,7 @@ def strat_models(draw, tier, models=None):
                 tuple_syntax=draw(st.booleans()), np_seed=0)
     case['av_order'] = list(draw(st.permutations(alts))) if draw(st.booleans()) else None
     case['nest_names'] = draw(st.sampled_from(['indexed', 'indexed', 'none', 'same']))
+    case['reuse_objects'] = draw(st.booleans())
     if model in ('nested', 'nested_mu'):
         case['nests'] = draw(mc.nested_structure(alts))
     elif model in ('cnl', 'cnlmu'):
@@ -66,17 +67,18 @@ def _observe(case):
     res = {'P': {}, 'logP': {}, 'Pshift': {}}
     model = case['model']
     ts = case['tuple_syntax'] and model != 'mev' and model != 'logit'
+    objects = {} if case.get('reuse_objects') else None
     for a in case['alts']:
-        e = mc.model_expression(case, model, ex.Numeric(a), tuple_syntax=ts)
+        e = mc.model_expression(case, model, ex.Numeric(a), tuple_syntax=ts, objects=objects)
         res['P'][a] = _num(e.get_value_c(database=database, betas=mc.evaluation_betas(case), prepare_ids=True))
-        le = mc.model_expression(case, model, ex.Numeric(a), log=True, tuple_syntax=ts)
+        le = mc.model_expression(case, model, ex.Numeric(a), log=True, tuple_syntax=ts, objects=objects)
         try:
             res['logP'][a] = _num(le.get_value_c(database=database, betas=mc.evaluation_betas(case), prepare_ids=True))
         except RuntimeError as exc:  # log of zero probability may be refused by the engine
             res['logP'][a] = ('raised', str(exc)[:200])
             return res  # the engine is poisoned after an exception: stop here
         if model != 'mev':
-            es = mc.model_expression(case, model, ex.Numeric(a), shift=case['shift'], tuple_syntax=ts)
+            es = mc.model_expression(case, model, ex.Numeric(a), shift=case['shift'], tuple_syntax=ts, objects=objects)
             res['Pshift'][a] = _num(es.get_value_c(database=database, betas=mc.evaluation_betas(case), prepare_ids=True))
     return res
 
@@ -104,7 +106,7 @@ def judge_models(case) -> Outcome:
             if mc._pv(mu_m) > 1 and any(sum(1 for a in mem if av[a]) >= 2 for av in avail):
                 nest_ok = True
     out.nontrivial = len(alts) >= 3 and some_unavailable and (nest_ok or model in ('logit', 'mev'))
-    out.classes += [f'model={model}', f'alts={len(alts)}', 'some_unavailable' if some_unavailable else 'all_available',
+    out.classes += ['objects_reused' if case.get('reuse_objects') else 'objects_rebuilt', f'model={model}', f'alts={len(alts)}', 'some_unavailable' if some_unavailable else 'all_available',
                     'full_choice_set' if case['av'] is None else 'with_availability']
     if case['nests'] is not None:
         nested_alts = {(m[0] if isinstance(m, list) else m) for _, mem in case['nests'] for m in mem}
